@@ -277,9 +277,44 @@ def shape_parser_int(item, ob):
                  sample='Ok(Some(v)) iff lo <= literal <= hi and v == literal; otherwise a parse error'); ob.witness(r.variant)
     ob.absorb_engine(E)
 
+def shape_parser_atom(item, ob):
+    """Parser::atom on a literal token: the expression node holds exactly the token's value (an integer literal of any size keeps its value
+    whether it becomes IntLit64 or IntLit; a rational literal keeps its value)"""
+    kind, = item
+    E = eng()
+    fs = [f for f in E.by_last.get('atom', []) if 'Parser' in (f.params[0][1] if f.params else '') and '{closure' not in f.name]
+    if len(fs) != 1: raise Missing(f'Parser::atom not found uniquely ({len(fs)})')
+    f = fs[0]; I = z3.Int('i')
+    def run():
+        E.assume(I >= 0)          # the lexer produces non-negative literals
+        tok = Adt('Token', 'IntLit', [I]) if kind == 'int' else Adt('Token', 'RatLit', [Rat(z3.ToReal(I))])
+        c = Cell(Adt('Parser', None, [Seq([Adt('LocToken', None, [tok, loc(), loc()])]), z3.IntVal(0)]))
+        return E.run_fn(f, [Ref(c)]), c.v.fields[1]
+    def replay(model):
+        i = mval(model, I)
+        return {'program': str(i) if kind == 'int' else f'{i}q == {i}', 'expect': {'equals': f'OK {i}' if kind == 'int' else 'OK 1'}}
+    for pc, kd, res, lg in E.explore(run):
+        ob.paths += 1; name = f'Parser::atom on a {kind} literal'
+        pref = [[z3.And(I >= (1 << 63) - 2, I <= (1 << 63) + 2)], [z3.And(I >= (1 << 62), I <= (1 << 66))]]
+        if kd == 'panic': ob.panic(name + ' panic-free', pc, res, replay=replay, cls='C15/parser atom/panic', prefer=pref); continue
+        if kd != 'ok': ob.missing(name, f'{kd}: {res}'); continue
+        r, pos = res
+        if r.variant != 'Ok': goal = z3.BoolVal(False)
+        else:
+            ex = r.fields[0].fields[2]
+            if kind == 'int':
+                if ex.variant == 'IntLit64': goal = z3.And(ex.fields[0] == I, in_i64(I), pos == 1)
+                elif ex.variant == 'IntLit': goal = z3.And(ex.fields[0] == I, pos == 1)
+                else: goal = z3.BoolVal(False)
+            else:
+                v = ex.fields[0] if ex.variant == 'RatLit' else None
+                goal = z3.And((v.v if isinstance(v, Rat) else z3.ToReal(v)) == z3.ToReal(I), pos == 1) if v is not None else z3.BoolVal(False)
+        ob.check(name + ' keeps the literal\'s value', pc, goal, replay=replay, cls='C15/parser atom/value', prefer=pref, sample='IntLit64(v) / IntLit(v) / RatLit(v) with v == the token value'); ob.witness(r.variant)
+    ob.absorb_engine(E)
+
 def run_shape(item, ob):
     fam, payload = item
-    {'string': shape_string, 'radix': shape_radix, 'lexnum': shape_lexnum, 'parser_int': shape_parser_int}[fam](payload, ob)
+    {'string': shape_string, 'radix': shape_radix, 'lexnum': shape_lexnum, 'parser_int': shape_parser_int, 'parser_atom': shape_parser_atom}[fam](payload, ob)
 
 def main(tier, seed, t0):
     global MIR
@@ -303,6 +338,7 @@ def main(tier, seed, t0):
         items.append(('lexnum', ('dec', '', k))); items.append(('lexnum', ('rat', '', k)))
     for meth in ('try_consume_u8', 'try_consume_usize'):
         for tk in ('int', 'other'): items.append(('parser_int', (meth, tk)))
+    for kind in ('int', 'rat'): items.append(('parser_atom', (kind,)))
     rnd = random.Random(seed); rnd.shuffle(items)
     merged, per = pmap(run_shape, items, tier)
     return finish(PROP, tier, seed, merged, t0, th=th,
